@@ -22,7 +22,7 @@ ASSUMPTIONS = ["scipy.ndimage.gaussian_filter (mode='constant', truncate=6) is t
                'grids have >=2 bins per axis (the contour finder used for full_output needs it)']
 BUDGET = {
     'quick': dict(examples=3200, time_s=300),
-    'thorough': dict(examples=120000, time_s=1800),
+    'thorough': dict(examples=120000, time_s=1800, fuzz=dict(workers=8, runs=6000, max_s=300)),
 }
 
 
